@@ -37,6 +37,16 @@ CHECKS = {
         note=TB + "the theorems cover the accounting after input selection (selection is C14 / C09); the hypotheses "
                   "(selected inputs cover the request, packing size-break not taken) are checked per scenario by the "
                   "differential run; liveness for ADA-only wallets is evaluated on the implementation only."),
+    "C08": dict(
+        text="Lean theorems over the models of TransactionOutput serialization, min_lovelace_post_alonzo, the negative-"
+             "quantity refusal and _calc_change / token packing: minimum-ADA formula; independence of the minimum from the "
+             "coin within one CBOR width; every change output holds its minimum ADA when the check is enabled; refusal "
+             "branches characterised; packing preserves the bundle; serialization refuses exactly when some nested output "
+             "has negative ADA or a negative stored quantity. Tied to /repo by differential runs (min-ADA utility, packing, "
+             "_calc_change, nesting levels) and judged on returned bodies by an independent ledger reader.",
+        ref="3 C08", technique="Lean 4 proof (output validity invariant of the change computation) + model/implementation correspondence",
+        note=TB + "an output into which merge_change adds the change is a caller-requested output and is judged for sign "
+                  "only; the value-size bound of packed bundles is evaluated on the implementation, not proved."),
     "C15": dict(
         text="Lean theorems over byte-level models of Address / PointerAddress / bech32: varnat and pointer round trips "
              "and minimality, header = kind<<4|network, byte round trip and injectivity for all 10 kinds, convertbits and "
@@ -54,6 +64,24 @@ CHECKS = {
         ref="3 C16", technique="Lean 4 proof (refinement of the integer-level spec, abstract group) + model/implementation correspondence",
         note=TB + "SHA-512 / HMAC / PBKDF2 / edwards25519 are modelled as structure fields with explicit law hypotheses, "
                   "not verified; validated against hashlib / libsodium / the reference."),
+    "C18": dict(
+        text="Lean theorems over a model of plutus.py / default_encoder against a specification of the ledger's Plutus data "
+             "encoding: constructor/tag bijection for all naturals, chunking spec, model = spec on all construction routes "
+             "(region stated, counterexamples machine-checked), decode/re-encode and JSON round trips on their true regions, "
+             "datum-hash preservation, long-bytes guard. Tied to /repo by differential runs over generated data to depth 4 "
+             "against the model and an independent reference encoder.",
+        ref="3 C18", technique="Lean 4 proof (model refines the Plutus-data spec encoder) + model/implementation correspondence",
+        note=TB + "typed decoding (_restore_typed_primitive over generated dataclasses) is judged against the reference "
+                  "only; nine recorded defect classes are matched by narrow predicates (known_findings.json)."),
+    "C19": dict(
+        text="Lean theorems over a model of cip8.sign / cip8.verify parametric in the signature scheme: completeness for all "
+             "4 key kinds x attach x network, the decision is exactly signature-valid AND credential-match over the signed "
+             "bytes, Sig_structure injectivity, soundness relative to an ideal scheme. Tied to /repo by differential runs "
+             "(layout byte for byte, the triple handed to the verifier) and by every single-bit alteration / substitution "
+             "judged with an independent Ed25519.",
+        ref="3 C19", technique="Lean 4 proof (decision logic stated outright, abstract signature scheme) + model/implementation correspondence",
+        note=TB + "the cose package's encoding and Ed25519 / BLAKE2b are modelled, not verified; soundness is relative to "
+                  "the stated ideal-scheme hypotheses."),
     "C20": dict(
         text="Lean theorems parse_X (render_X u) = ok u for the five adapters (Blockfrost, Ogmios v5/v6, Kupo, cardano-cli) "
              "over arbitrary asset lists: nothing merged, dropped or re-attributed; hex split at 56 characters; order "
